@@ -476,7 +476,7 @@ Section Limits.
   Lemma init_good k0 va0 s0 :
     init E cf k0 va0 = Ok s0 -> length k0 = n -> length va0 = n -> lims_ok E lims k0 -> good s0.
   Proof.
-    intros Hi Lk Lv Hl. unfold init in Hi.
+    intros Hi Lk Lv Hl. unfold init in Hi. destruct (e_f E k0); [|discriminate].
     assert (G : good_k (pre_init E cf k0 va0)).
     { split; [|exact Hl]. split; [|intros Hc x Hx; discriminate].
       split; [exact Lk|]. split; [exact Lv|]. intros x Hx. discriminate. }
